@@ -430,7 +430,7 @@ class Gen:
                              ("eq", 1), ("ne", 1), ("and", 1), ("or", 1)])
             return Node("bin", op, self.simple(d - 1, ctx), self.simple(d - 1, ctx))
         if k == "un":
-            op = r.pick(["neg", "sqrt", "abs", "neg", "sqrt", "abs", "floor", "ceil", "round"])
+            op = r.pick(["neg", "sqrt", "abs", "neg", "sqrt", "abs", "floor", "ceil", "round"] if self.p.get("rounding", True) else ["neg", "sqrt", "abs"])
             if op == "round" and r.chance(1, 2):
                 # exact ties k + 0.5 are where rounding modes differ
                 return Node("un", "round", Node("bin", "add", Node("un", "floor", self.simple(d - 1, ctx)), Node("lit", "0.5")))
@@ -593,6 +593,8 @@ class Gen:
                 # known finding G3 (VM reads a stale value after a closure assigned a captured variable): captured
                 # variables are read-only inside closures unless the profile asks for `closure_assign`
                 cap = ctx["vars"] if self.p.get("closure_assign", False) else [(n, t, False) for (n, t, _) in ctx["vars"]]
+                # finding C03-K11: assigning a FIELD of a captured record inside a closure panics the compiler
+                cap = [(n, t, m and not (isinstance(t, tuple) and t[0] == "r")) for (n, t, m) in cap]
                 lctx = dict(ctx, vars=cap + [(q, F, False) for q in ps], allow_state=False, self_type=None, in_lambda=True)
                 body = self.block(F, d - 1, lctx)
                 fname = self.fresh("f")
@@ -721,6 +723,10 @@ PROFILES = {
     "scalar_tself": dict(avoid_f2=True, avoid_f3=True, lambdas=False, tuples=False, tuple_self=True),
     "scalar_deep": dict(avoid_f2=True, avoid_f3=True, lambdas=False, tuples=False, depth=5, max_fns=5),
     "closure_assign": dict(avoid_f2=True, avoid_f3=True, closure_assign=True),
+    "scalar_nr": dict(avoid_f2=True, avoid_f3=True, lambdas=False, tuples=False, records=False, rounding=False),
+    "core_nr": dict(avoid_f2=True, avoid_f3=True, rounding=False),
+    "deep_nr": dict(avoid_f2=True, avoid_f3=True, depth=5, max_fns=5, rounding=False),
+    "closure_assign_nr": dict(avoid_f2=True, avoid_f3=True, closure_assign=True, rounding=False),
     "nolam": dict(avoid_f2=True, avoid_f3=True, lambdas=False),
     "notup": dict(avoid_f2=True, avoid_f3=True, tuples=False),
     "stateless": dict(avoid_f2=True, avoid_f3=True, stateful_pct=0, self=False),
